@@ -530,7 +530,19 @@ func (x *Exec) callWith(st *State, in ssa.Instruction, c *ssa.CallCommon, fnv Va
 		site := fmt.Sprintf("%s#%d", x.calleeName(c), x.callOrd[in])
 		if cl, ok := x.fc.CallAsserts[site]; ok {
 			x.assertedSites[site] = true
-			ctx := x.ctxFor(st, x.entry, nil)
+			// the actual arguments of the call are available as arg1, arg2, ... (receiver excluded for method and
+			// interface calls)
+			extra := map[string]TV{}
+			for i, av := range c.Args {
+				k := i + 1
+				if !c.IsInvoke() && c.Signature().Recv() != nil {
+					k = i
+				}
+				if k >= 1 && i < len(args) {
+					extra[fmt.Sprintf("arg%d", k)] = TV{V: args[i], T: av.Type(), S: x.prog.sortOf(av.Type())}
+				}
+			}
+			ctx := x.ctxFor(st, x.entry, extra)
 			for _, a := range cl {
 				x.oblige(st, "assert", a.Label+"@"+site, x.evalBool(ctx, a), a.Text)
 			}
